@@ -19,7 +19,7 @@ func C06(c *core.Ctx) {
 	c.Explanation = engineAText +
 		"C06 family: a string property in 6 positions (required, optional, nullable in both type-list orders, behind #/$defs and #/definitions references) × all 8 subsets of " +
 		"{minLength, maxLength, pattern}, JSON and YAML methods. Additional clauses: the length measure must count characters (A-REJ:chars); emitted code may not discard the matcher's error (A-ERRDROP2); " +
-		"no schema text is used as a printf format (A-EVENT:symbolic-format); with a default on the same property the default assignment precedes every length/pattern check in both methods (A-DEF). Not decided: regexp dialect differences."
+		"no schema text is used as a printf format (A-EVENT:symbolic-format); with a default on the same property the default assignment precedes every length/pattern check in both methods (A-DEF). A-FIDELITY: (*Type).UnmarshalJSON interpreted on the one-keyword document {kw: v} leaves exactly what plain encoding/json makes of it — the stated value is neither normalised nor dropped (a zero is a stated value). Not decided: regexp dialect differences."
 	rules := ruleSet("A-REJ", "A-NOEXTRA", "A-NILG", "A-ERRDROP2", "A-EVENT")
 	cfg := gen.DefaultConfig()
 	for _, pos := range positions {
@@ -42,6 +42,7 @@ func C06(c *core.Ctx) {
 			})
 		}
 	}
+	ruleFidelity(c, "pattern", "minLength", "maxLength")
 	runCompositions(c, rules, "Length", "pattern")
 	// the checks of a declaration are its own schema's, also when another file of the run defines a same-named, same-shaped definition
 	ruleMultiSel(c, ruleSet("A-REJ", "A-NOEXTRA"), 3, "differing only in minLength", "differing only in maxLength", "differing only in pattern")
